@@ -135,6 +135,25 @@ func e4OracleC02(r *e4Result) string {
 		if !consumed {
 			continue
 		}
+		// With a response timeout that can fire, the waiter may give up at the very moment its PUBCOMP becomes readable
+		// (both are ready, either may win): an error reported for "waiting PUBCOMP" after the acknowledgement and before the
+		// client's next packet on that connection means the acknowledgement was not what the publisher acted on.
+		gaveUp := false
+		var nextPkt int64 = 1 << 62
+		for _, l := range r.Log {
+			if l.Seq > e.Seq && l.Conn == e.Conn && e4Emitted(l) {
+				nextPkt = l.Seq
+				break
+			}
+		}
+		for _, l := range r.Log {
+			if l.Kind == "ONERROR" && l.Seq > e.Seq && l.Seq < nextPkt && strings.Contains(l.Note, "waiting PUBCOMP") {
+				gaveUp = true
+			}
+		}
+		if gaveUp {
+			continue
+		}
 		idStillOurs := true // a later message may legitimately be given the same identifier (every connection has its own counter)
 		for _, l := range r.Log {
 			if l.Seq <= e.Seq || !e4Emitted(l) {
@@ -513,10 +532,18 @@ func e4OracleC08(r *e4Result) string {
 			if p == nil {
 				continue
 			}
-			// received for certain once the client wrote anything later on that connection
+			// received for certain once the client wrote anything later on that connection - unless the waiter reported
+			// in between that it gave up ("waiting SUBACK": a response timeout firing at the moment the SUBACK became
+			// readable, or the link ending): then the request is still owed
+			gaveUp := false
 			for _, l := range r.Log[i+1:] {
+				if l.Kind == "ONERROR" && strings.Contains(l.Note, "waiting SUBACK") {
+					gaveUp = true
+				}
 				if l.Conn == e.Conn && e4Emitted(l) {
-					acks = append(acks, ackAt{l.Seq, p.Filters})
+					if !gaveUp {
+						acks = append(acks, ackAt{l.Seq, p.Filters})
+					}
 					break
 				}
 			}
